@@ -29,6 +29,9 @@ type sharedWorld struct {
 	freshV  reflect.Value // a value of that type
 	docs    [][]byte      // private-bytes documents that import the shared tables with various max_id
 	yielder bool
+	// deepDepth: nesting of the value of op 14, chosen so that the goroutines of a round together are
+	// more than 65536 levels deep
+	deepDepth int
 }
 
 type yieldWriter struct {
@@ -96,7 +99,7 @@ func newWorld(round int, r *rand.Rand) *sharedWorld {
 type opResult string
 
 // runOp executes operation `op` (0..nOps-1) for goroutine-private seed; every op touches shared state.
-const nOps = 12
+const nOps = 15
 
 func runOp(w *sharedWorld, op int, seed int64) (res opResult) {
 	defer func() {
@@ -203,6 +206,56 @@ func runOp(w *sharedWorld, op int, seed int64) (res opResult) {
 		err := e.WriteTo(tw)
 		tw.Finish()
 		return opResult(fmt.Sprintf("%d %s %v", s.Version(), buf.String(), err))
+	case 12: // binary timestamps with a different known offset per call (zone construction), read back
+		var buf bytes.Buffer
+		bw := ion.NewBinaryWriter(&buf)
+		var want []string
+		for i := 0; i < 6; i++ {
+			t := genTS(r)
+			t.Prec, t.OffKnown, t.OffMin = model.PSecond, true, int(seed%1400)-700+i
+			if t.OffMin == 0 {
+				t.OffMin = 61
+			}
+			t = t.Normalize()
+			if !t.Valid() {
+				continue
+			}
+			bw.WriteTimestamp(ionx.ToTS(t, 0))
+			want = append(want, t.String())
+		}
+		err := bw.Finish()
+		obs := ionx.Observe(ion.NewReader(&yieldReader{bytes.NewReader(buf.Bytes()), w.yielder}))
+		return opResult(fmt.Sprintf("%v|%v|%s|%s", want, err, model.FmtAll(obs.Vals), obs.ErrString()))
+	case 13: // calls that fail (malformed input, type mismatch) followed by calls that succeed
+		out := ""
+		for i := 0; i < 3; i++ {
+			var x struct{ A int }
+			e1 := ion.UnmarshalString("{A:1", &x)
+			e2 := ion.UnmarshalString("\"not an int\"", &x.A)
+			e3 := ion.Unmarshal([]byte{0xE0, 0x01, 0x00, 0xEA, 0x30}, &x.A)
+			out += fmt.Sprint(e1 != nil, e2 != nil, e3 != nil)
+		}
+		for i := 0; i < 3; i++ {
+			var cf CaseFields
+			doc := fmt.Sprintf("{n:%d,N:%d,name:\"%s\",NAME:[\"a\",\"%d\"],Label:\"%s\"}", r.Intn(1000), i, strings.Repeat("x", 1+r.Intn(40)), seed, strings.Repeat("y", r.Intn(300)))
+			err := ion.UnmarshalString(doc, &cf)
+			var m map[string]interface{}
+			err2 := ion.Unmarshal([]byte(doc), &m)
+			out += fmt.Sprintf("|%d %d %d %v %d %v %d %v", cf.Count, cf.Total, len(cf.Name), cf.NAME, len(cf.Label), err, len(m), err2)
+		}
+		return opResult(out)
+	case 14: // deeply nested (but finite) values marshalled at the same time
+		depth := w.deepDepth + r.Intn(50)
+		var v interface{} = []interface{}{seed}
+		for i := 0; i < depth; i++ {
+			v = []interface{}{v}
+		}
+		bs, err := ion.MarshalText(v)
+		bb, err2 := ion.MarshalBinary(struct {
+			Deep interface{} `ion:"deep"`
+			N    int         `ion:"n"`
+		}{v, depth})
+		return opResult(fmt.Sprintf("%d %d %v %d %v %x", depth, len(bs), err, len(bb), err2, Hash(string(bs)+string(bb))))
 	default: // timestamps / decimals (package-level tables in textutils, consts)
 		ts := ionx.ToTS(genTS(r), r.Intn(6))
 		s := ts.String()
@@ -282,10 +335,18 @@ func runC18(c *Ctx) {
 		plan := make([][]step, ngo)
 		for g := range plan {
 			for s := 0; s < perG; s++ {
-				plan[g] = append(plan[g], step{(g + s) % nOps, r.Int63()})
+				plan[g] = append(plan[g], step{(g + s) % (nOps - 1), r.Int63()})
 			}
-			// every goroutine starts with the fresh type and with an Adjust-heavy read
+			// every goroutine starts with the fresh type and with an Adjust-heavy read; in every other
+			// round with the deep value, so that all goroutines are deep inside Marshal at the same time
 			plan[g][0].op, plan[g][1].op = 1, 2
+			if ngo >= 16 && round%4 != 1 {
+				plan[g][0].op, plan[g][1].op, plan[g][2].op = 14, 1, 2
+			}
+		}
+		w.deepDepth = 300
+		if ngo >= 16 {
+			w.deepDepth = 70000/ngo + 300
 		}
 		// concurrent run first (so that first uses really are concurrent), sequential reference after
 		got := make([][]opResult, ngo)
@@ -314,6 +375,7 @@ func runC18(c *Ctx) {
 		r2 := rand.New(rand.NewSource(c.Seed*18_000_041 + int64(round)))
 		w2 := newWorld(round, r2)
 		w2.freshT, w2.freshV = w.freshT, w.freshV // the same type identity
+		w2.deepDepth = w.deepDepth
 		for g := 0; g < ngo; g++ {
 			for s, st := range plan[g] {
 				want := runOp(w2, st.op, st.seed)
@@ -401,7 +463,7 @@ func firstDiff(a, b string) string {
 
 func init() {
 	Register(&Monitor{ID: "C18", Run: func(c *Ctx) {
-		c.Rule = "rounds of N goroutines released by a barrier, each running an independent mix of 12 operation kinds over deliberately shared objects (struct types incl. a fresh type first used concurrently, SharedSymbolTables, a Catalog, one local symbol table, the system table) under GOMAXPROCS 1/2/4/16, with yields inside the harness's io wrappers; binary built with -race. Oracles: zero race-detector reports with ion-go frames (counted from the log files), and every operation's output byte-equal to the same operation run alone. Non-trivial: a round with >= 2 goroutines and measured overlap on shared objects; distinct by round configuration."
+		c.Rule = "rounds of N goroutines released by a barrier, each running an independent mix of 15 operation kinds over deliberately shared objects (struct types incl. a fresh type first used concurrently, SharedSymbolTables, a Catalog, one local symbol table, the system table) and over package-level state reached from private objects (binary timestamps with per-call offsets, Unmarshal calls that fail followed by calls that succeed, deeply nested values marshalled at the same time) under GOMAXPROCS 1/2/4/16, with yields inside the harness's io wrappers; binary built with -race. Oracles: zero race-detector reports with ion-go frames (counted from the log files), and every operation's output byte-equal to the same operation run alone. Non-trivial: a round with >= 2 goroutines and measured overlap on shared objects; distinct by round configuration."
 		c.Assume("the race detector only sees races that the executed schedule makes adjacent: held on the rounds executed is what is claimed")
 		runC18(c)
 	}})
